@@ -13,7 +13,7 @@ Written from the specification text and the property statement (C04), not from t
 """
 import z3
 from pyvc.values import *
-from pyvc.values import LEMMA_HOOKS
+from pyvc.values import LEMMA_HOOKS, UNFOLD
 from pyvc.symexec import attr0, fun_id
 from pyvc.classtable import table
 
@@ -266,3 +266,83 @@ z3.RecAddDefinition(VarMap, [_defs, _raw, _k], z3.If(_k <= 0, VL.nil,
           assoc_set(VarMap(_defs, _raw, _k - 1), attr0(nth(_defs, _k - 1), 'name'),
                     VarVal(nth(_defs, _k - 1), _raw, def_ic(nth(_defs, _k - 1)), def_lc(nth(_defs, _k - 1)))),
           VarMap(_defs, _raw, _k - 1))))
+
+
+# ---- behaviour prescribed for a GraphQL type object (the denotation get_input_coercer must build)
+def find_type(schema, name):
+    return lookup(V.ditems(attr0(schema, 'type_definitions')), name)
+
+
+def wrapped_of(t):
+    """specification of GraphQLWrappingType.wrapped_type"""
+    g = attr0(t, 'gql_type')
+    return z3.If(cls_is(g, 'GraphQLType'), g, find_type(attr0(t, '_schema'), g))
+
+
+def is_list_t(t):
+    return cls_is(t, 'GraphQLList')
+
+
+def is_wrapping_t(t):
+    return cls_is(t, 'GraphQLWrappingType')
+
+
+LEAF_INPUT_CLASSES = [c for c in T.subclasses('GraphQLType') if T.resolve_attr(c, 'input_coercer') is not None]
+
+BehT = z3.RecFunction('BehT', V, Beh)
+TyWf = z3.RecFunction('TyWf', V, BoolS)
+_t = z3.Const('t_', V)
+z3.RecAddDefinition(BehT, [_t], z3.If(is_list_t(_t), Beh.ListB(BehT(wrapped_of(_t))),
+                                   z3.If(is_non_null_type(_t), Beh.NonNullB(BehT(wrapped_of(_t))), denote(attr0(_t, 'input_coercer')))))
+z3.RecAddDefinition(TyWf, [_t], z3.And(cls_is(_t, 'GraphQLType'), V.oref(_t) >= 0,
+    z3.If(is_wrapping_t(_t),
+          z3.And(z3.Or(is_list_t(_t), is_non_null_type(_t)),
+                 z3.Or(cls_is(attr0(_t, 'gql_type'), 'GraphQLType'),
+                       z3.And(V.is_Str(attr0(_t, 'gql_type')), cls_is(attr0(_t, '_schema'), 'GraphQLSchema'), V.is_Dict(attr0(attr0(_t, '_schema'), 'type_definitions')),
+                              find_type(attr0(_t, '_schema'), attr0(_t, 'gql_type')) != V.Missing)),
+                 TyWf(wrapped_of(_t))),
+          # input leaf types (scalar, enum, input object): the baked closure is present
+          z3.And(z3.Or(*[z3.And(V.is_Obj(_t), V.ocls(_t) == T.cid[c]) for c in LEAF_INPUT_CLASSES]), V.is_Fun(attr0(_t, 'input_coercer'))))))
+
+
+def wrapB(w, b):
+    return z3.If(V.fname(w) == fun_id(K_LIST), Beh.ListB(b), Beh.NonNullB(b))
+
+
+def okw(w):
+    return z3.And(V.is_Fun(w), z3.Or(V.fname(w) == fun_id(K_LIST), V.fname(w) == fun_id(K_NONNULL)))
+
+
+RebR = z3.RecFunction('RebR', VL, Beh, Beh)       # apply the wrapper list from its last element outwards
+WsOk = z3.RecFunction('WsOk', VL, BoolS)
+_ws = z3.Const('ws_', VL)
+z3.RecAddDefinition(RebR, [_ws, _b], z3.If(length(_ws) <= 0, _b, RebR(take(_ws, length(_ws) - 1), wrapB(nth(_ws, length(_ws) - 1), _b))))
+z3.RecAddDefinition(WsOk, [_ws], z3.If(length(_ws) <= 0, True, z3.And(WsOk(take(_ws, length(_ws) - 1)), okw(nth(_ws, length(_ws) - 1)))))
+
+
+UNFOLD['RebR'] = lambda ws, b: z3.If(length(ws) <= 0, b, RebR(take(ws, length(ws) - 1), wrapB(nth(ws, length(ws) - 1), b)))
+UNFOLD['WsOk'] = lambda ws: z3.If(length(ws) <= 0, True, z3.And(WsOk(take(ws, length(ws) - 1)), okw(nth(ws, length(ws) - 1))))
+
+
+def _denote_body(c):
+    return z3.If(z3.Not(V.is_Fun(c)), Beh.OpaqueB(c),
+           z3.If(V.fname(c) == fun_id(K_LIST), Beh.ListB(denote(bound(c, 'inner_coercer'))),
+           z3.If(V.fname(c) == fun_id(K_NONNULL), Beh.NonNullB(denote(bound(c, 'inner_coercer'))),
+           z3.If(V.fname(c) == fun_id(K_DIR), Beh.DirB(denote(bound(c, 'coercer')), bound(c, 'directives')),
+           z3.If(V.fname(c) == fun_id(K_SCALAR), Beh.ScalarB(bound(c, 'scalar_type')),
+           z3.If(V.fname(c) == fun_id(K_ENUM), Beh.EnumB(bound(c, 'enum_type')),
+           z3.If(V.fname(c) == fun_id(K_INOBJ), Beh.InObjB(bound(c, 'input_object_type')),
+                 Beh.OpaqueB(c))))))))
+
+
+UNFOLD['denote_in'] = _denote_body
+UNFOLD['TyWf'] = lambda t: z3.And(cls_is(t, 'GraphQLType'), V.oref(t) >= 0,
+    z3.If(is_wrapping_t(t),
+          z3.And(z3.Or(is_list_t(t), is_non_null_type(t)),
+                 z3.Or(cls_is(attr0(t, 'gql_type'), 'GraphQLType'),
+                       z3.And(V.is_Str(attr0(t, 'gql_type')), cls_is(attr0(t, '_schema'), 'GraphQLSchema'), V.is_Dict(attr0(attr0(t, '_schema'), 'type_definitions')),
+                              find_type(attr0(t, '_schema'), attr0(t, 'gql_type')) != V.Missing)),
+                 TyWf(wrapped_of(t))),
+          z3.And(z3.Or(*[z3.And(V.is_Obj(t), V.ocls(t) == T.cid[c]) for c in LEAF_INPUT_CLASSES]), V.is_Fun(attr0(t, 'input_coercer')))))
+UNFOLD['BehT'] = lambda t: z3.If(is_list_t(t), Beh.ListB(BehT(wrapped_of(t))),
+                                z3.If(is_non_null_type(t), Beh.NonNullB(BehT(wrapped_of(t))), denote(attr0(t, 'input_coercer'))))
